@@ -21,6 +21,11 @@ if not os.path.isdir(tdir) and os.path.isdir(kanirun.DEPS_CACHE):
 hs = [h for h in registry.HARNESSES if h.name == hname]
 memsafe = hs[0].memsafe if hs else False
 cmd = ["cargo", "kani", "--lib", "-Z", "stubbing", "--harness", hname, "--target-dir", tdir] + ([] if memsafe else ["--no-memory-safety-checks"]) + extra
+fs = (hs[0].fs_array if hs else None) or spec.get("fs_array")
+if os.environ.get("DEV_FS"):
+    fs = int(os.environ["DEV_FS"])
+if "--cbmc-args" not in extra and fs:
+    cmd += ["-Z", "unstable-options", "--cbmc-args", "--max-field-sensitivity-array-size", str(fs)]
 t0 = time.time()
 to = int(os.environ.get("DEV_TIMEOUT", "1200"))
 logp = os.path.join(d, "log")
